@@ -304,3 +304,13 @@ def family(tier, seed=0):
         for L1, F1 in itertools.product((0, 1), repeat=2):
             add(2, (L0, L1), (F0, F1), -1, meas="one", log=True)
     return out
+
+
+def oscillating_spec(meas="two"):
+    """two coupled AR(2) processes with complex-conjugate root pairs (four stable states, two 2x2 Schur blocks)"""
+    eqs = [dict(terms=[(0, -1, 1.2), (0, -2, -0.7), (1, -1, 0.1)], const=0.2, shock=True),
+           dict(terms=[(1, -1, 0.9), (1, -2, -0.5), (0, -1, -0.15)], const=0.1, shock=True)]
+    ms = [dict(terms=[(0, 0, 1.0)], const=0.0, shock=True)]
+    if meas == "two":
+        ms.append(dict(terms=[(1, 0, 1.0), (0, -1, 0.3)], const=0.5, shock=False))
+    return LinSpec(2, eqs, ms, False, "oscillating_ar2_pair_%s" % meas)
